@@ -176,6 +176,23 @@ func newPipeline(cacheSize int, hitForPass string, withStore bool, srvOpt server
 func (p *pipeline) setScript(f upstreamScript) { p.mu.Lock(); p.script = f; p.mu.Unlock() }
 func (p *pipeline) calls() int                  { p.mu.Lock(); defer p.mu.Unlock(); return p.upCalls }
 
+func buildRequest(method, host, uri string, hdr http.Header, body []byte) *http.Request {
+	var rd io.Reader = http.NoBody
+	if body != nil {
+		rd = bytes.NewReader(body)
+	}
+	req := httptest.NewRequest(method, "http://placeholder.test/", rd)
+	if u, err := url.ParseRequestURI(uri); err == nil {
+		req.URL = u
+	}
+	req.Host = host
+	req.RequestURI = uri
+	for k, vs := range hdr {
+		req.Header[k] = append([]string(nil), vs...)
+	}
+	return req
+}
+
 func (p *pipeline) do(method, host, uri string, hdr http.Header, body []byte) *httptest.ResponseRecorder {
 	var rd io.Reader = http.NoBody
 	if body != nil {
